@@ -1,7 +1,7 @@
 """C04 - PWLCalibration weight constraint (W1 W3 W4 P1 P2 P3 L4 T1)."""
 import ast
 
-from ..model import (AnalysisError, FunctionInfo, dotted, norm_text,
+from ..model import (AnalysisError, FunctionInfo, orelse_view, dotted, norm_text,
                      names_read, const_value, is_none, call_args)
 from ..cfg import CFG, structural_guards
 from ..rules import roles
@@ -194,16 +194,9 @@ def _sign_ops(prog, res):
     head = [s for s in fn.node.body if isinstance(s, ast.If)]
     if not head:
       raise AnalysisError('_project_monotonicity: dispatch vanished')
-    sig = spelling.chain_signature(head[0], 'monotonicity', m)
-    cur = head[0]
-    bodies = []
-    while True:
-      bodies.append(cur.body)
-      if len(cur.orelse) == 1 and isinstance(cur.orelse[0], ast.If):
-        cur = cur.orelse[0]
-      else:
-        bodies.append(cur.orelse)
-        break
+    arms, else_body = orelse_view(fn.node).chain(head[0])
+    sig = spelling.chain_signature(head[0], 'monotonicity', m, arms=arms)
+    bodies = [a.body for a in arms] + [else_body]
     last = sig[-1]
     stmts = bodies[last[1]] if last[0] == 'T' else bodies[-1]
     got = _returned_op(prog, fn, stmts)
